@@ -70,6 +70,17 @@ CLAIMED = {
         note="Trusted: linearity of forward/adjoint on parameter vectors (itself probed), numpy. Classes under recorded "
              "known findings (non-orthonormal expansion geometries; Deconvolution2D even PSF / reflective BC) are excluded and counted.",
         design="3/C07"),
+    "C10": dict(
+        technique="Hypothesis property tests: np.random.gamma interposed in record mode captures the Gamma the sampler draws from; compared with the target's own logd along the hyper-parameter axis; required-rejection checks; differential Direct vs target.sample under one seeded stream",
+        text="For generated supported conjugate pairs (Gaussian cov=1/s or prec=s with vector or model mean, GMRF prec=d over bc/order/"
+             "1D-2D; both interfaces; Posterior built directly or via JointDistribution conditioning) the (shape, scale) of the sampler's "
+             "single Gamma draw is captured and log-density-minus-Gamma-kernel must be constant on a 6-point grid of the target's own "
+             "logd; unsupported structures (wrong functional dependence, two occurrences, multivariate Gamma, non-Gamma prior, non-"
+             "Gaussian likelihood) must be rejected - an accepted one is a violation only if what it draws from is not the true "
+             "conditional; ConjugateApprox: rejection rules only; Direct: step() equals target.sample() under the same seeded stream.",
+        note="Recorded findings (GMRF with periodic/neumann bc: shape uses len(x) instead of the rank; legacy Conjugate without structural "
+             "validation) are excluded and counted.",
+        design="3/C10"),
     "C12": dict(
         technique="Hypothesis property tests: metamorphic relation across input representations against a harness-computed reference + finite-difference Jacobian oracle + required-refusal checks",
         text="For generated models (Jacobian, direction-Jacobian, derivative-free, linear from matrix/function pair) over generated "
